@@ -141,7 +141,7 @@ func runFaults(sc M) {
 			f := "none"
 			if c.Err == errInjected.Error() {
 				f = "error"
-			} else if c.Err == "short" || c.Err == "partial" || c.Err == "partial-error" {
+			} else if c.Err == "short" || c.Err == "short1" || c.Err == "short4" || c.Err == "partial" || c.Err == "partial-error" {
 				f = c.Err
 			}
 			dl.calls = append(dl.calls, M{"dep": fsDepName[c.Op], "fault": f})
